@@ -189,6 +189,9 @@ def run_case(case, drv):
     model_kinds = [r[0] for r in mres][:len(impl_kinds)]
     if impl_kinds != model_kinds:
         res.disagree("helper call results", impl_kinds, model_kinds)
+        if all(r[0] == "ok" for r in mres) and any(k != "ok" for k in impl_kinds):
+            bad = next(r for r in results if r[0] != "ok")
+            res.fail("build:helper-raises", f"a MIRP helper call raised on a well-formed instance (after the caller modified the list returned by add_nodes): {bad[1]}")
     if any(k != "ok" for k in impl_kinds):
         res.features.append("error-branch:" + next(k for k in impl_kinds if k != "ok"))
         res.nontrivial = False
@@ -206,6 +209,11 @@ def run_case(case, drv):
             res.disagree("arc dict (key, endpoints, time, cost; in insertion order)", diff[0], diff[1])
         if (st["g"]["cap"], st["g"]["init"]) != (mstate["g"]["cap"], mstate["g"]["init"]):
             res.disagree("vessel", (st["g"]["cap"], st["g"]["init"]), (mstate["g"]["cap"], mstate["g"]["init"]))
+    # the MIRP's own bookkeeping must not follow what the caller did to the lists add_nodes returned
+    for (kind, names), p in zip(results, spec["ports"]):
+        if kind == "ok" and names is not None and st["mapping"].get(p["name"]) != names:
+            res.fail("build:port-mapping-aliased", f"port_mapping[{p['name']}] = {st['mapping'].get(p['name'])} but add_nodes returned {names} (the caller then modified its copy)")
+            return res
     regular = [nm for p in st["supply"] + st["demand"] for nm in st["mapping"][p]]
     label = f"(order {spec['order']})"
     has_exit = "EXIT" in spec["order"]
